@@ -18,8 +18,9 @@ for prop in props:
     for md in sorted(glob.glob("/tmp/wt/out/%s/m*" % prop)):
         m = os.path.basename(md)
         patch = os.path.join(md, "patch_rebased.diff") if os.path.exists(os.path.join(md, "patch_rebased.diff")) else os.path.join(md, "patch.diff")
-        sid = "%s-%s" % (prop, m)
-        meta = {"id": sid, "breaks_property": prop, "repo_head": head, "source": "independent sub-agent (given only the property text and a scratch worktree)"}
+        pid = prop[:3]                      # out/C01r2/m3 -> property C01, seed id C01-m3
+        sid = "%s-%s" % (pid, m)
+        meta = {"id": sid, "breaks_property": pid, "repo_head": head, "source": "independent sub-agent (given only the property text and a scratch worktree)"}
         notes = open(os.path.join(md, "notes.txt")).read() if os.path.exists(os.path.join(md, "notes.txt")) else ""
         meta["needs_to_manifest"] = notes.strip()[:1500]
         sh("git -C %s reset -q --hard %s" % (WT, head))
@@ -34,13 +35,13 @@ for prop in props:
         meta["confirmed"] = {"demo_without_patch_exit": rc0, "demo_with_patch_exit": rc1, "test_suite_with_patch": ot.strip()[-80:]}
         ok = rc0 == 0 and rc1 != 0 and "43 passed" in ot
         t0 = time.time()
-        rcc, oc = sh("cd /verif && /venv/bin/python harness/check.py --property %s --tier quick" % prop, env=env)
-        lines = [l for l in oc.splitlines() if l.startswith("VIOLATION") or l.startswith(prop + " quick")]
+        rcc, oc = sh("cd /verif && /venv/bin/python harness/check.py --property %s --tier quick" % pid, env=env)
+        lines = [l for l in oc.splitlines() if l.startswith("VIOLATION") or l.startswith(pid + " quick")]
         meta["check_quick"] = {"exit": rcc, "output": lines, "wall_s": round(time.time() - t0, 1)}
         detected = rcc == 1 and any(l.startswith("VIOLATION") for l in lines)
         meta["detected_by_quick_check"] = detected
         meta["what_was_run"] = ["TNTORCH_ROOT=<scratch worktree> demo.py with and without the patch", "unedited test suite with the patch",
-                                "harness/check.py --property %s --tier quick with TNTORCH_ROOT=<scratch worktree>" % prop]
+                                "harness/check.py --property %s --tier quick with TNTORCH_ROOT=<scratch worktree>" % pid]
         if ok:
             d = os.path.join(OUT, sid); os.makedirs(d, exist_ok=True)
             shutil.copy(patch, os.path.join(d, "patch.diff")); shutil.copy(os.path.join(md, "demo.py"), os.path.join(d, "demo.py"))
